@@ -191,7 +191,7 @@ def check(prog, res, tier):
                 for side, b in (('reader', rb), ('writer', wb)):
                     if b.get('blocked') is not u['bl']:
                         fails.append(definite(f'{side} does not receive the blocked option'))
-            codecs = [(e.data['op'], e.data['codec']) for e in p.evs('codec') if e.func == fi.short]
+            codecs = [(e.data['op'], e.data['codec']) for e in p.evs('codec') if e.under(fi.short)]
             if [c[0] for c in codecs] != ['decode', 'encode'] or codecs[0][1] is not u['ie'] or codecs[1][1] is not u['oe']:
                 fails.append(definite(f'records are not decoded with the input encoding then encoded with the output encoding: {codecs}'))
             wm = u.get('write_many', [])
